@@ -479,6 +479,18 @@ BASES = [
     ("http", "example.com", ":80", ""),
     ("http", "日本.jp", ":81", "/é"),
     ("https", "example.com", ":8443", "/ü/ß"),
+    # hosts whose last characters are digits of the scheme's default port, given with that port:
+    # the default port must be dropped as a suffix, nothing else
+    ("http", "10.0.0.80", ":80", ""),
+    ("http", "web08", ":80", "/x"),
+    ("https", "10.1.2.34", ":443", ""),
+    ("https", "cdn4", ":443", "/a"),
+    ("ws", "host80", ":80", ""),
+    ("wss", "h443", ":443", ""),
+    ("http", "h80", ":8080", ""),
+    ("https", "10.0.0.80", ":80", ""),
+    ("http", "[::80]", ":80", ""),
+    ("https", "x3.example", "", ""),
 ]
 CLEAN = ["a", "b", "Z", "0", "-", ".", "_", "~", "é", "ü", "日本", "😀", " ", "+", "&", "=", ";", ":", "@", "!", "$", "'", "(", ")", "*", ",", "\x7f", "\xa0", "ÿ", "Ā", " ", '"', "<", ">", "\\", "^", "`", "{", "|", "}", "[", "]", "\x01", "\x1f", "�", "\U0010ffff", "́"]
 QCHARS = CLEAN + ["%", "#", "?", "/", "%41", "%zz", "\t", "\n", "\r", "\x00"]
@@ -502,6 +514,8 @@ class EnvironRoundtrip(Stream):
             ("/", [("q", "%41"), ("q", "a?b#c/d")], 6),
             ("/[x]/{y}|\\^`<>\"", [("\x00", "\t\n")], 7),
         ]
+    ] + [
+        {"path": hs("/p"), "query": [], "base": b} for b in range(9, 19)
     ]
 
     def cases(self, rng, tier):
@@ -551,7 +565,7 @@ class EnvironRoundtrip(Stream):
         got = [] if rargs == "[]" else [tuple(unhs(x) for x in kv.split("=")) for kv in rargs.split(",")]
         if got != items:
             return f"Request.args {got!r} != {items!r}"
-        default = {"http": ":80", "https": ":443"}[scheme]
+        default = {"http": ":80", "https": ":443", "ws": ":80", "wss": ":443"}[scheme]
         ascii_host = host if host.startswith("[") else host.encode("idna").decode("ascii")
         want_host = ascii_host + ("" if port == default else port)
         if unhs(rhost) != want_host:
@@ -598,7 +612,7 @@ class EnvironKernel(Stream):
     QS = ["", "a=b", "a=b&c=d", "q=%C3%A9", "q=é", "x=1&x=2", "a+b=c%20d", "%zz", "k=%FF", "a=b#c", "é=ü&日本=😀", "a=%26%3D"]
     corpus = [
         {"path": hs(p), "base": b, "qs": hs(q)}
-        for p, b, q in [("/", 0, ""), ("/é/日本", 1, "q=é"), ("/a b", 2, "a=b"), ("/%41", 3, ""), ("/a\tb", 0, ""), ("/x?y", 0, "a=b"), ("//x/y", 0, ""), ("/a#b", 4, "k=%FF"), ("", 5, ""), ("rel/p", 6, ""), ("/%zz%", 7, "%zz"), ("/😀", 8, "é=ü"), ("/%2541", 0, ""), ("/a%2520b", 1, ""), ("/a%3Fb%23c", 0, "q=1")]
+        for p, b, q in [("/", 0, ""), ("/é/日本", 1, "q=é"), ("/a b", 2, "a=b"), ("/%41", 3, ""), ("/a\tb", 0, ""), ("/x?y", 0, "a=b"), ("//x/y", 0, ""), ("/a#b", 4, "k=%FF"), ("", 5, ""), ("rel/p", 6, ""), ("/%zz%", 7, "%zz"), ("/😀", 8, "é=ü"), ("/p", 9, ""), ("/p", 10, "a=b"), ("/p", 11, ""), ("/p", 12, ""), ("/p", 13, ""), ("/p", 14, ""), ("/p", 15, ""), ("/p", 16, ""), ("/p", 17, ""), ("/p", 18, ""), ("/%2541", 0, ""), ("/a%2520b", 1, ""), ("/a%3Fb%23c", 0, "q=1")]
     ]
 
     def cases(self, rng, tier):
@@ -663,6 +677,13 @@ class EnvironKernel(Stream):
             return f"Request.url {rurl!r} does not parse: {e}"
         if unquote(sp.path) != rroot + rpath:
             return f"Request.url path {sp.path!r} does not denote root_path + path = {rroot + rpath!r}"
+        # the host is recovered exactly; the scheme's default port is dropped as a suffix, nothing else
+        scheme, host, port, _root = BASES[case["base"]]
+        default = {"http": ":80", "https": ":443", "ws": ":80", "wss": ":443"}[scheme]
+        ascii_host = host if host.startswith("[") else host.encode("idna").decode("ascii")
+        want_host = ascii_host + ("" if port == default else port)
+        if rhost != want_host:
+            return f"Request.host {rhost!r} != {want_host!r}"
         if any(c in path for c in "%?#\t\r\n") or path.startswith("//") or not path.startswith("/"):
             return None  # outside the domain of the exact round-trip claim (see stream environ-roundtrip)
         if rpath != path:
